@@ -131,7 +131,7 @@ pub fn test_bytes(c: &BytesCase) -> Verdict {
     Verdict::pass(has_ref).label(if has_ref { "accepted with backref" } else { "accepted plain" })
 }
 
-fn gen_bytes(t: &mut Tape) -> BytesCase {
+pub fn gen_bytes(t: &mut Tape) -> BytesCase {
     let cfg = TreeCfg { max_nodes: 30, max_atom: 40, reprs: false, dup_atoms: 60, deep: 0 };
     let b = match t.weighted(&[2, 5, 5, 2, 1]) {
         0 | 1 => {
